@@ -138,7 +138,9 @@ def plin_reference(dim: int, k: int, params: Sequence[float],
     order = sorted(range(k), key=lambda i: (dists[i], i))
     best, second = order[0], order[1]
     gap = dists[second] - dists[best]
-    tie = gap <= Fr(1, 10 ** 9) * dists[second]
+    # relative guard band plus an absolute floor: squared differences below
+    # ~1e-290 are denormal or underflow to zero in float arithmetic
+    tie = gap <= Fr(1, 10 ** 9) * dists[second] + Fr(1, 10 ** 290)
     vals = []
     for i in range(k):
         base = i * 2 * dim + dim
@@ -454,9 +456,15 @@ def linear_solution(m: np.ndarray, g: Sequence[float], s0: Sequence[float],
 
 
 def blocks_closed_form(blocks: Sequence[Sequence[float]], b: Sequence[float],
-                       c: float, s0: Sequence[float], t: float) -> list[float]:
+                       c: float, s0: Sequence[float], t: float) -> Any:
     """Closed form of ds/dt = A s + b*c for block-diagonal A and constant
-    control c (elementary functions only; cross-check of linear_solution)."""
+    control c (elementary functions only; cross-check of linear_solution).
+    Returns None when a block is nearly singular (0 < |lambda| < 1e-3): the
+    fixed-point form then cancels catastrophically."""
+    for blk in blocks:
+        size = abs(blk[0]) if len(blk) == 1 else math.hypot(blk[0], blk[1])
+        if 0.0 < size < 1e-3:
+            return None
     out: list[float] = []
     i = 0
     for blk in blocks:
